@@ -80,11 +80,36 @@ Print Assumptions C01_headers_endtoend_refuted.
 Theorem C01_headers_endtoend_partial : forall es,
   (forall e, In e es -> wf_req (rq e) = true) ->
   Forall2 req_preserved_x (served es) (origin_saw (run es)).
-Proof. intros es H. exact (proj1 (run_holds es H)). Qed.
+Proof. exact run_requests. Qed.
 Print Assumptions C01_headers_endtoend_partial.
 
+(* Bodiless responses (to HEAD, 204, 304): the framing headers the client sees -
+   Content-Length present or absent AND its value, Transfer-Encoding - are the
+   origin's.  FALSE at full strength of the faithful model: net/http's
+   Response.Write drops the Content-Length of a 304 (C01-K3) and adds
+   "Content-Length: 0" to a bodiless answer to POST/PUT/PATCH (C01-K4). *)
+Theorem C01_bodiless_framing_headers_refuted :
+  c01_frm_ok cl_304 (run cl_304) = false /\ c01_frm_ok post_204 (run post_204) = false.
+Proof. exact (conj cl_304_refutes post_204_refutes). Qed.
+Print Assumptions C01_bodiless_framing_headers_refuted.
+
+(* Guard [framing_ok]: for HEAD the origin states at most one Content-Length (any
+   value, also one that is not the GET body's length) and no Transfer-Encoding
+   (C01-K5, found by the correspondence, is outside the model); a 204/304 states
+   no framing header and does not answer POST/PUT/PATCH. *)
+Theorem C01_bodiless_framing_headers_partial : forall es,
+  (forall e, In e es -> framing_ok e = true) ->
+  Forall2 res_framing_preserved (map resp_of (served es)) (client_got (run es)).
+Proof. exact run_framing. Qed.
+Print Assumptions C01_bodiless_framing_headers_partial.
+
+Theorem C01_framing_oracle_is_the_clause : forall es o,
+  c01_frm_ok es o = true <-> Forall2 res_framing_preserved (map resp_of (served es)) (client_got o).
+Proof. exact c01_frm_ok_iff. Qed.
+Print Assumptions C01_framing_oracle_is_the_clause.
+
 Theorem C01_relay_partial : forall es,
-  (forall e, In e es -> wf_req (rq e) = true) -> c01_holds es (run es).
+  (forall e, In e es -> wf_ex e = true) -> c01_holds es (run es).
 Proof. exact run_holds. Qed.
 Print Assumptions C01_relay_partial.
 
@@ -170,7 +195,7 @@ Definition example_script : list exchange :=
          (Resp (mkResp 200 false [] (mkBody 1 14) FCL)) ReadAll ].
 
 Example C01_example :
-  forallb (fun e => wf_req (rq e)) example_script = true /\
+  forallb wf_ex example_script = true /\
   c01_ok example_script (run example_script) = true /\
   List.length (client_got (run example_script)) = 2 /\
   closed (run example_script) = true /\
@@ -192,3 +217,18 @@ Proof. eexists. split; [vm_compute; reflexivity|]. vm_compute. repeat split; aut
 Example C01_schedule_serve_needs_arrival :
   srun (h01 false id_body) (sinit example_script) [LServe] = None.
 Proof. reflexivity. Qed.
+
+(* Non-vacuity of the framing clause: HEAD answered with a length that is not the
+   GET body's, HEAD answered chunked, HEAD answered without any length, a 204. *)
+Definition head_ex (shs : list header) (st : N) (m : string) : exchange :=
+  mkEx (mkReq (s m) OriginForm (s "/") false [(s "Host", s "ORIGIN")] (mkBody 0 0) RqNone)
+       (Resp (mkResp st false shs (mkBody 0 0) FBodiless)) ReadAll.
+
+Example C01_framing_example :
+  let es := [head_ex [(s "Content-Length", s "12345")] 200 "HEAD";
+             head_ex [(s "content-length", s "0")] 200 "HEAD";
+             head_ex [] 200 "HEAD"; head_ex [] 204 "GET"] in
+  forallb wf_ex es = true /\ c01_ok es (run es) = true /\
+  map (fun c => (vals (s "content-length") (c_hdrs c), vals (s "transfer-encoding") (c_hdrs c))) (client_got (run es))
+    = [([s "12345"], []); ([s "0"], []); ([], []); ([], [])].
+Proof. vm_compute. repeat split; reflexivity. Qed.
